@@ -10,7 +10,7 @@
 EXTENDS Segment, FiniteSetsExt, Json
 
 CONSTANT W,          \* exhaustive header error weight checked by TLC (2 quick, 3 thorough)
-         EmitPayLen  \* payload length of the segments for which descriptors are emitted
+         EmitPayLens \* payload lengths of the segments for which descriptors are emitted (0: the trailer alone is what can be hit)
 
 XorBytes(a, b) == [i \in 1..Len(a) |-> a[i] ^^ b[i]]
 \* error pattern on n bytes from a set of bit positions 0..8n-1 (bit k = bit k%8 of byte k\div 8)
@@ -44,7 +44,7 @@ ASSUME DetectsUpTo(5, W)
 
 -----------------------------------------------------------------------------
 \* Concrete descriptors for one small segment of each format: bit positions over the whole segment.
-SegBits(hl) == 8 * (hl + 3 + EmitPayLen + 4)
+SegBits(hl, pl) == 8 * (hl + 3 + pl + 4)
 HdrBits(hl) == 8 * (hl + 3)
 \* the property's guaranteed detection range
 Guaranteed(E, hl) ==
@@ -53,22 +53,22 @@ Guaranteed(E, hl) ==
     IN \/ Cardinality(eh) \in 1..7
        \/ eh = {} /\ ep # {} /\ (Cardinality(ep) <= 2 \/ (CHOOSE m \in ep : \A k \in ep : k <= m) - (CHOOSE m \in ep : \A k \in ep : k >= m) < 32)
 
-Pairs(hl) == UpTo(0..(SegBits(hl) - 1), 2)
+Pairs(hl, pl) == UpTo(0..(SegBits(hl, pl) - 1), 2)
 \* bursts: a window of 3..32 bits anywhere in payload+CRC-32 with both ends flipped and one of three interiors
 Burst(start, len, kind) ==
     {start, start + len - 1} \cup
     (CASE kind = "ends" -> {} [] kind = "full" -> start..(start + len - 1)
        [] kind = "alt" -> {k \in start..(start + len - 1) : (k - start) % 2 = 0})
-Bursts(hl) == {Burst(s, l, k) : s \in HdrBits(hl)..(SegBits(hl) - 3), l \in {3, 8, 9, 17, 31, 32}, k \in {"ends", "full", "alt"}}
+Bursts(hl, pl) == {Burst(s, l, k) : s \in HdrBits(hl)..(SegBits(hl, pl) - 3), l \in {3, 8, 9, 17, 31, 32}, k \in {"ends", "full", "alt"}}
 
-Descriptor(E, hl) == [fmt |-> IF hl = 3 THEN "none" ELSE "lz4", paylen |-> EmitPayLen, bits |-> E,
+Descriptor(E, hl, pl) == [fmt |-> IF hl = 3 THEN "none" ELSE "lz4", paylen |-> pl, bits |-> E,
                       reject |-> Guaranteed(E, hl)]
 
 VARIABLE x
 Init == /\ x = 0
-        /\ \A hl \in {3, 5} :
-             /\ \A E \in Pairs(hl) : PrintT(<<"COR", ToJson(Descriptor(E, hl))>>)
-             /\ \A E \in {B \in Bursts(hl) : \A k \in B : k < SegBits(hl)} : PrintT(<<"COR", ToJson(Descriptor(E, hl))>>)
+        /\ \A hl \in {3, 5}, pl \in EmitPayLens :
+             /\ \A E \in Pairs(hl, pl) : PrintT(<<"COR", ToJson(Descriptor(E, hl, pl))>>)
+             /\ \A E \in {B \in Bursts(hl, pl) : \A k \in B : k < SegBits(hl, pl)} : PrintT(<<"COR", ToJson(Descriptor(E, hl, pl))>>)
 Next == x' = x
 Spec == Init /\ [][Next]_x
 =============================================================================
